@@ -1,6 +1,6 @@
 #!/usr/bin/env python3
 """tools/collect_seeds2.py [--verif <tree>] [--tier quick] <ID>-<X> ...
-Round-2 collector: copies /tmp/seedout8-<ID>/<X>/ (patch.diff, zz_seed_*_test.go, meta.json written by an independent
+Round-2 collector: copies /tmp/seedout9-<ID>/<X>/ (patch.diff, zz_seed_*_test.go, meta.json written by an independent
 agent) to seeded/<ID>-<X>/, confirms it with tools/seedcheck.sh run from <tree> (default: this tree) and records the
 outcome in meta.json. With an existing seeded/<ID>-<X>/ and no /tmp source it only re-runs the confirmation."""
 import json, os, shutil, subprocess, sys
@@ -12,7 +12,7 @@ while args and args[0].startswith("--"):
     elif args[0] == "--tier": tier = args[1]; args = args[2:]
 for name in args:
     pid, x = name.split("-")
-    src = f"/tmp/seedout8-{pid}/{x}"
+    src = f"/tmp/seedout9-{pid}/{x}"
     out = f"{V}/seeded/{name}"
     if os.path.exists(src + "/patch.diff") and not os.path.exists(out + "/patch.diff"):
         os.makedirs(out, exist_ok=True)
